@@ -1257,28 +1257,148 @@ def gen_riscv_loop(g: Gen, avail_i: list[int], avail_f: list[int], depth: int, d
     return loop
 
 
-def finish_loops(g: Gen, ops: list[dict], avail_i: list[int]) -> list[dict]:
-    """materialise the bounds of every loop: `li` constants right before the loop (lb, ub, dynamic step)"""
+def finish_loops(g: Gen, ops: list[dict], avail_i: list[int], hoist: list[dict] | None = None) -> list[dict]:
+    """materialise the bounds of every loop as `li` constants (lb, ub, dynamic step): right before the
+    loop, or — for a loop nested in another one, half of the time — before the OUTERMOST enclosing loop,
+    so that the operands of the inner loop op are defined outside the outer loop and have to survive
+    all of its iterations although nothing but the inner loop op itself reads them."""
     rng = g.rng
     out: list[dict] = []
     for op in ops:
         if op["k"] == "for":
             op.pop("_pre", None)
-            op["body"] = finish_loops(g, op["body"], avail_i)
+            inner_hoist: list[dict] = [] if hoist is None else hoist
+            op["body"] = finish_loops(g, op["body"], avail_i, inner_hoist)
+            if hoist is None:
+                out.extend(inner_hoist)          # bounds of nested loops hoisted to here
             lo = rng.choice([0, 0, 1, 2, -1])
             hi = lo + rng.choice([0, 1, 2, 3, 4])
             lbv, ubv = g.vid(), g.vid()
-            out.append({"k": "li", "imm": lo, "ins": [], "outs": [[lbv, "i", None]], "io": []})
-            out.append({"k": "li", "imm": hi, "ins": [], "outs": [[ubv, "i", None]], "io": []})
+            pre: list[dict] = []
+
+            def emit(o, pre=pre):
+                # each bound independently: local to the loop, or hoisted out of the outer loop
+                (hoist if hoist is not None and rng.random() < 0.5 else pre).append(o)
+
+            emit({"k": "li", "imm": lo, "ins": [], "outs": [[lbv, "i", None]], "io": []})
+            emit({"k": "li", "imm": hi, "ins": [], "outs": [[ubv, "i", None]], "io": []})
             op["lb"], op["ub"] = lbv, ubv
             if rng.random() < 0.3:
                 sv = g.vid()
-                out.append({"k": "li", "imm": rng.choice([1, 2, 3]), "ins": [], "outs": [[sv, "i", None]], "io": []})
+                emit({"k": "li", "imm": rng.choice([1, 2, 3]), "ins": [], "outs": [[sv, "i", None]], "io": []})
                 op["step"] = {"v": sv}
             else:
                 op["step"] = rng.choice([1, 1, 2, 3])
+            out.extend(pre)
         out.append(op)
     return out
+
+
+def gen_riscv_nested(rng) -> dict:
+    """Two nested riscv_scf.for loops.  Operands of the INNER loop op (upper bound, lower bound, dynamic
+    step) are computed before the OUTER loop, possibly from the arguments (symbolic trip counts), and are
+    read by nothing but the inner loop op; the outer body defines temporaries before and after the
+    inner loop.  The outer loop runs at least twice for every input, so a temporary that takes the
+    register of an inner bound changes the trip count of the inner loop in the next outer iteration."""
+    g = Gen(rng, "riscv")
+    nargs = rng.randint(1, 3)
+    args = [[g.vid(), "i", f"a{i}"] for i in range(nargs)]
+    ops: list[dict] = []
+
+    def emit(lst, k, ins, imm=None, pre=None):
+        v = g.vid()
+        o: dict[str, Any] = {"k": k, "ins": list(ins), "outs": [[v, "i", pre]], "io": []}
+        if imm is not None:
+            o["imm"] = imm
+        lst.append(o)
+        return v
+
+    srcs = [emit(ops, "mv", [a[0]]) for a in args] if rng.random() < 0.6 else [a[0] for a in args]
+
+    def small(lst, lo, mask):
+        """a value in lo .. lo+mask that depends on an argument (or a constant)"""
+        if rng.random() < 0.35:
+            return emit(lst, "li", [], rng.randint(lo, lo + mask))
+        x = emit(lst, "andi", [rng.choice(srcs)], mask)
+        return emit(lst, "addi", [x], lo) if lo else x
+
+    # values that must survive the whole outer loop: operands of the inner loop op only
+    in_lb = emit(ops, "li", [], rng.choice([0, 0, 1])) if rng.random() < 0.7 else None
+    in_ub = small(ops, rng.choice([1, 2]), 3) if rng.random() < 0.85 else None
+    in_step = emit(ops, "li", [], rng.choice([1, 2])) if rng.random() < 0.4 else None
+    extra_outer = [emit(ops, rng.choice(["addi", "xori"]), [rng.choice(srcs)], rng.randint(1, 9))
+                   for _ in range(rng.randint(0, 2))]
+    # outer loop: at least two iterations for every input
+    out_lb = emit(ops, "li", [], rng.choice([0, 1]))
+    base = 2 + rng.choice([0, 1])
+    if rng.random() < 0.5:
+        out_ub_raw = emit(ops, "andi", [rng.choice(srcs)], 1)
+        out_ub = emit(ops, "addi", [out_ub_raw], base + 1)      # lb <= 1, ub >= 3
+    else:
+        out_ub = emit(ops, "li", [], base + 1)
+    out_step: Any = 1
+    if rng.random() < 0.3:
+        out_step = {"v": emit(ops, "li", [], 1)}
+    n_acc = rng.randint(1, 2)
+    acc_inits = [emit(ops, "li", [], rng.randint(1, 9)) for _ in range(n_acc)]
+    oiv = g.vid()
+    obargs = [[g.vid(), "i", None] for _ in acc_inits]
+    body: list[dict] = []
+    tb: list[int] = []
+    for _ in range(rng.randint(0, 3)):
+        k = rng.choice(["li", "addi", "add"])
+        if k == "li":
+            tb.append(emit(body, "li", [], rng.randint(1, 50)))
+        elif k == "addi":
+            tb.append(emit(body, "addi", [rng.choice([oiv] + tb + [b[0] for b in obargs])], rng.randint(1, 5)))
+        else:
+            tb.append(emit(body, "add", [rng.choice([oiv] + tb), rng.choice([b[0] for b in obargs] + extra_outer + tb)]))
+    # inner loop
+    i_lb = in_lb if in_lb is not None else emit(body, "li", [], 0)
+    i_ub = in_ub if in_ub is not None else emit(body, "li", [], rng.randint(1, 3))
+    c = emit(body, "li", [], rng.randint(0, 3))
+    jv = g.vid()
+    ia = [g.vid(), "i", None]
+    ibody: list[dict] = []
+    n1 = emit(ibody, "add", [ia[0], jv])
+    cur = n1
+    for _ in range(rng.randint(0, 2)):
+        k = rng.choice(["add", "xor", "addi"])
+        if k == "addi":
+            cur = emit(ibody, "addi", [cur], rng.randint(1, 7))
+        else:
+            cur = emit(ibody, k, [cur, rng.choice(tb + extra_outer + [oiv, jv])])
+    ires = [g.vid(), "i", None]
+    inner = {"k": "for", "lb": i_lb, "ub": i_ub, "step": ({"v": in_step} if in_step is not None else rng.choice([1, 1, 2])),
+             "inits": [c], "iv": [jv, "i", None], "bargs": [ia], "body": ibody, "yields": [cur], "res": [ires]}
+    body.append(inner)
+    # temporaries after the inner loop
+    ta: list[int] = []
+    for _ in range(rng.randint(1, 5)):
+        ta.append(emit(body, "li", [], rng.randint(2, 90)) if rng.random() < 0.6
+                  else emit(body, "addi", [rng.choice([oiv, ires[0]] + ta)], rng.randint(1, 9)))
+    val = ires[0]
+    pool_vals = ta + tb
+    rng.shuffle(pool_vals)
+    for t in pool_vals:
+        val = emit(body, rng.choice(["add", "xor", "sub"]), [val, t])
+    yields = []
+    for k, b in enumerate(obargs):
+        if k == 0:
+            yields.append(emit(body, "add", [b[0], val]))
+        else:
+            yields.append(emit(body, rng.choice(["addi", "xori"]), [b[0]], rng.randint(1, 5)))
+    ores = [[g.vid(), "i", None] for _ in acc_inits]
+    ops.append({"k": "for", "lb": out_lb, "ub": out_ub, "step": out_step, "inits": acc_inits, "iv": [oiv, "i", None],
+                "bargs": obargs, "body": body, "yields": yields, "res": ores})
+    rets = []
+    if rng.random() < 0.5:
+        rets = [emit(ops, "mv", [ores[0][0]], pre="a0")]
+        if len(ores) > 1:
+            rets.append(emit(ops, "mv", [ores[1][0]], pre="a1"))
+    else:
+        rets = [r[0] for r in ores]
+    return {"target": "riscv", "mode": "pass", "pool": None, "args": args, "ops": ops, "rets": rets}
 
 
 def gen_riscv(rng, size: int, loops: bool, dirty: bool, floats: bool) -> dict:
@@ -1853,7 +1973,10 @@ def gen_case_raw(rng, tier: str) -> tuple[dict, str]:
     elif r < 0.60:
         case = gen_riscv(rng, rng.randint(1, 8), loops=True, dirty=True, floats=False)
         stream = "riscv.loops-undisciplined"
-    elif r < 0.72:
+    elif r < 0.68:
+        case = gen_riscv_nested(rng)
+        stream = "riscv.nested"
+    elif r < 0.76:
         t = rng.choice(["riscv", "x86"])
         case = gen_fan(rng, t, rng.randint(1, 17), False)
         stream = t + ".fan"
@@ -1924,7 +2047,7 @@ def run(ctx: core.Ctx) -> None:
         process(ctx, case, lean_batch, stream)
     n = 0
     target_n = 7000 if quick else 150000
-    while n < target_n and ctx.time_left() > (12 if quick else 60):
+    while n < target_n and ctx.time_left() > (16 if quick else 60):
         case, stream = gen_case(ctx.rng, ctx.tier)
         process(ctx, case, lean_batch, stream)
         n += 1
